@@ -166,4 +166,23 @@ FixedOffsetSel(w) == RefSel(w, Total(w), 2 * Total(w))      \* always zeta = 1/2
 IdentitySel(w)    == [j \in 1..Len(w) |-> j]
 
 ScaleW(c, w) == [i \in 1..Len(w) |-> c * w[i]]
+
+(***************************************************************************)
+(* PART 3 - the multi-rank protocol's vocabulary (shared by CombMPI.tla,   *)
+(* which model-checks it, and CombTrace.tla, which judges the collectives  *)
+(* the real code issued on the harness's thread communicator).             *)
+(* sr.stochastic_reconfiguration_mpi:      Gather walkers, Gather weights, *)
+(*     [root combs], Scatter walkers, Scatter weights;                     *)
+(* sr.stochastic_reconfiguration_mpi_uhf:  Gather up, Gather dn, Gather    *)
+(*     weights, [root combs], Scatter up, Scatter dn, Scatter weights.     *)
+(***************************************************************************)
+CollNames(uhf) == IF uhf THEN <<"GatherUp", "GatherDn", "GatherW", "ScatterUp", "ScatterDn", "ScatterW">>
+                         ELSE <<"GatherUp", "GatherW", "ScatterUp", "ScatterW">>
+CollKind(name) == IF name \in {"GatherUp", "GatherDn", "GatherW"} THEN "Gather" ELSE "Scatter"
+CollKinds(uhf) == [k \in DOMAIN CollNames(uhf) |-> CollKind(CollNames(uhf)[k])]
+
+(* rank-ordered concatenation of per-rank chunks, and chunk r (0-based rank) of a global sequence *)
+RECURSIVE Flat(_)
+Flat(chunks) == IF Len(chunks) = 0 THEN <<>> ELSE Head(chunks) \o Flat(Tail(chunks))
+Chunk(q, r, n) == [j \in 1..n |-> q[r * n + j]]
 =============================================================================
